@@ -210,6 +210,8 @@ def c10(chk, thorough):
         chk.broke('only %d divisions by a column-scaling cell found, floor 5' % n)
     guards.missing_guard(chk, prog, {'matrix.c': guards.STAT_FUNCS['matrix.c']})
     guards.preprocess_options(chk, prog)
+    guards.centered_spread(chk, prog, ['MatrixColSDEV', 'MatrixColVar'])
+    chk.floor('G.centered-spread', 2)
     chk.floor('G.missing', 5)
     chk.floor('G.options', 7)
 
